@@ -438,6 +438,11 @@ func (s *ReceiveStream) handleResetStreamFrame(frame *wire.ResetStreamFrame, now
 	s.mutex.Unlock()
 
 	if completed {
+		// If reading was cancelled locally before the final size was known, and the
+		// RESET_STREAM_AT frame has a reliable size beyond the read position,
+		// the unread bytes have not been returned to the connection flow controller yet.
+		// Calling Abandon multiple times is a no-op.
+		s.flowController.Abandon()
 		s.sender.onStreamCompleted(s.streamID)
 	}
 	return err
